@@ -19,7 +19,7 @@ class Contract:
                  props=(), inline=False, trusted=False, bind=None, lang=None, cases=None,
                  raises=(), pure=True, note='', order_axioms=False, arith_axioms=False,
                  extra_axioms=(), returns=None, ghost=None, replay=None, exc_ok=False, kinds=None,
-                 lemmas=(), theories=(), hints=None, allocates=None):
+                 lemmas=(), theories=(), hints=None, allocates=None, callee_views=None):
         self.name = name
         self.params = params or {}
         self.requires = list(requires)
@@ -47,6 +47,7 @@ class Contract:
         self.theories = tuple(theories)
         self.hints = hints or {}
         self.allocates = allocates or {}
+        self.callee_views = callee_views or {}
 
 
 def contract(name, **kw):
@@ -160,3 +161,20 @@ def _register_triggers():
 
 
 _register_triggers()
+
+
+def _register_mention():
+    """Mention(t): an always-true marker that merely puts the term t into the solver's term set, so
+    that quantified invariants triggered on that term shape get instantiated there."""
+    import z3
+    from .vals import Val, BoolS, IntS, vlit, is_int
+    from .ops import zint
+    mv = z3.Function('MentionV', Val, BoolS)
+    mi = z3.Function('MentionI', IntS, BoolS)
+    spec('Mention', z3=lambda ex, st, t: (mi(zint(t)) if is_int(t) else mv(vlit(t))), py=lambda ex, st, t: True)
+    a = z3.Const('mn_v', Val)
+    b = z3.Const('mn_i', IntS)
+    THEORIES['mention'] = lambda: [z3.ForAll([a], mv(a), patterns=[mv(a)]), z3.ForAll([b], mi(b), patterns=[mi(b)])]
+
+
+_register_mention()
